@@ -89,7 +89,7 @@ func (r *Runner) prove(j Job) *FuncProof {
 		return nil
 	}
 	fc := r.eng.contracts.Funcs[j.Key]
-	opts := ProofOpts{Mode: j.Mode, QuickMs: r.quickMs, SlowMs: r.slowMs, Thorough: r.thorough, Sim: j.Sim, Rel: j.Rel, Alloc: j.Alloc}
+	opts := ProofOpts{Mode: j.Mode, QuickMs: r.quickMs, SlowMs: r.slowMs, Thorough: r.thorough, Sim: j.Sim, Rel: j.Rel, Alloc: j.Alloc, SimAs: j.SimAs}
 	if j.Only != "" {
 		opts.OnlyKinds = map[string]bool{j.Only: true}
 	}
